@@ -292,7 +292,7 @@ func shapeOf(v ssa.Value) string {
 			return "len"
 		}
 		if f := x.Call.StaticCallee(); f != nil {
-			return f.Name() + "()"
+			return nm(f) + "()"
 		}
 		return "call"
 	case *ssa.Convert:
@@ -436,7 +436,7 @@ func (l *ledger) funcValueNonNil(c *ssa.Call) (bool, string) {
 		return l.paramAlwaysFunc(x)
 	case *ssa.Extract:
 		// fn from isStatelessOp under its true answer: R-STATELESS shows non-nil
-		if call, ok := x.Tuple.(*ssa.Call); ok && call.Call.StaticCallee() != nil && call.Call.StaticCallee().Name() == "isStatelessOp" {
+		if call, ok := x.Tuple.(*ssa.Call); ok && call.Call.StaticCallee() != nil && nm(call.Call.StaticCallee()) == "isStatelessOp" {
 			return true, "approved by isStatelessOp, which returns true only with a non-nil function (C10 R-STATELESS, R-STATELESS-TABLE)"
 		}
 	case *ssa.UnOp:
@@ -444,7 +444,7 @@ func (l *ledger) funcValueNonNil(c *ssa.Call) (bool, string) {
 			break
 		}
 		// the options loop of NewConfig is dead in the compile closure (no options are ever passed there)
-		if c.Parent().Name() == "NewConfig" {
+		if nm(c.Parent()) == "NewConfig" {
 			if _, _, note := compileClosure(l.w, NewReport("", "", "", nil), "R-PANIC"); note != "" {
 				return true, "dead in this context: " + note
 			}
@@ -489,7 +489,7 @@ func (l *ledger) funcValueNonNil(c *ssa.Call) (bool, string) {
 	case *ssa.Lookup:
 		// optimizerMap[opt] for opt ranging over the optimizations list: every listed option has an entry
 		if addr, ok := isLoad(x.X); ok {
-			if g, ok := addr.(*ssa.Global); ok && g.Name() == "optimizerMap" {
+			if g, ok := addr.(*ssa.Global); ok && nm(g) == "optimizerMap" {
 				if ok2, why := l.optimizerMapTotal(); ok2 {
 					return true, why
 				}
